@@ -265,7 +265,7 @@ func (r *run) RootContext(env envs.Environment) map[string]types.XValue {
 func (r *run) Context(env envs.Environment) map[string]types.XValue {
 	var exitedOn types.XValue
 	if r.exitedOn != nil {
-		exitedOn = types.NewXDateTime(*r.exitedOn)
+		exitedOn = types.NewXDateTime(flows.StoredTime(*r.exitedOn))
 	}
 
 	return map[string]types.XValue{
@@ -276,7 +276,7 @@ func (r *run) Context(env envs.Environment) map[string]types.XValue {
 		"status":      types.NewXText(string(r.Status())),
 		"results":     flows.Context(env, r.Results()),
 		"path":        r.path.ToXValue(env),
-		"created_on":  types.NewXDateTime(r.CreatedOn()),
+		"created_on":  types.NewXDateTime(flows.StoredTime(r.CreatedOn())),
 		"exited_on":   exitedOn,
 	}
 }
